@@ -5,6 +5,7 @@ import RosuModel.Model.DecodeWire
 import RosuModel.Model.DetWire
 import RosuModel.Model.AttrsWire
 import RosuModel.Model.ModsWire
+import RosuModel.Model.StrainsWire
 
 open Rosu
 
@@ -32,6 +33,10 @@ def handle (line : String) : String :=
   | ["ORD", mode, bits] => Mods.handleOrd mode bits
   | ["LAZER", mode, bits, kind, speed, ar, cs, hp, od] => Mods.handleLazer mode bits kind speed ar cs hp od
   | ["GCR", mode, bits, kind, speed, clock] => Mods.handleGcr mode bits kind speed clock
+  | ["SV", variant, sum0, ops] => StrainsWire.handleSV variant sum0 ops
+  | ["DV", variant, kind, decay, k, factors, pushes] => StrainsWire.handleDV variant kind decay k factors pushes
+  | ["SKILL", kind, fuel, objs] => StrainsWire.handleSKILL kind fuel objs
+  | ["SECT", l, fuel, times] => StrainsWire.handleSECT l fuel times
   | _ => "bad-op"
 
 partial def loop (h : IO.FS.Stream) (out : IO.FS.Stream) : IO Unit := do
